@@ -253,6 +253,50 @@ pub fn to_rule(c: &Clause) -> Rule {
     }
 }
 
+/// Source text with the infix spellings (`$X = 1 + 2`, `$X < 3`) where the
+/// goal has one; otherwise the canonical text.
+pub fn infix_text(g: &G) -> String {
+    fn term(t: &T) -> String {
+        match t {
+            T::Func(n, a) if a.len() == 2 && !matches!(a[0], T::Func(..)) && !matches!(a[1], T::Func(..)) => {
+                let op = match n.as_str() {
+                    "add" => "+",
+                    "subtract" => "-",
+                    "multiply" => "*",
+                    "divide" => "/",
+                    _ => return t.text(),
+                };
+                format!("{} {} {}", a[0].text(), op, a[1].text())
+            }
+            _ => t.text(),
+        }
+    }
+    match g {
+        G::Unify(a, b) => format!("{} = {}", term(a), term(b)),
+        G::Cmp(r, a, b) => format!("{} {} {}", a.text(), r.infix(), b.text()),
+        G::And(gs) => gs.iter().map(infix_text).collect::<Vec<_>>().join(", "),
+        other => other.text(),
+    }
+}
+
+/// Build the knowledge base through the rule parser (`infix`: use the infix
+/// spellings).  Err = the parser rejected a clause (C19's business, not ours).
+pub fn build_kb_text(p: &Program, infix: bool) -> Result<suiron::KnowledgeBase, String> {
+    let mut kb = suiron::KnowledgeBase::new();
+    for c in p {
+        let text = match (&c.body, infix) {
+            (Some(b), true) => format!("{} :- {}.", c.head.text(), infix_text(b)),
+            _ => c.text(),
+        };
+        let r = std::panic::catch_unwind(|| suiron::parse_rule(&text)).map_err(|_| format!("parser panicked on {}", text))?;
+        match r {
+            Ok(rule) => suiron::add_rules(&mut kb, vec![rule]),
+            Err(e) => return Err(format!("{} : {}", text, e)),
+        }
+    }
+    Ok(kb)
+}
+
 pub fn build_kb(p: &Program) -> suiron::KnowledgeBase {
     let mut kb = suiron::KnowledgeBase::new();
     suiron::add_rules(&mut kb, p.iter().map(to_rule).collect());
